@@ -21,6 +21,7 @@ Inductive case :=
           (rec : list Z)                (* ourParams fields (same order; idle in ms) *)
           (enf : list Z)                (* read from the connection *)
           (idle : Z)                    (* Conn.idleTimeout after applyTransportParams, ns *)
+          (deadline pto3 : Z)           (* nextIdleTimeoutTime - idleTimeoutStartTime, and the 3*PTO that entered it (oracle), ns *)
           (probes : list (ev * Z)).     (* boundary events and the error code each produced (stops at the first error) *)
 
 Record obs := mkObs {
@@ -30,6 +31,7 @@ Record obs := mkObs {
   o_rec : list Z;
   o_enf : list Z;
   o_idle : Z;
+  o_deadline : Z;
   o_codes : list Z;
   o_plain_ok : bool
 }.
@@ -48,7 +50,7 @@ Definition enf_list (c : config) : list Z :=
 
 Definition model_obs (c : case) : obs :=
   match c with
-  | AdvCase sd params sup rnd scid rawcfg peer_idle wire override _ _ _ _ probes =>
+  | AdvCase sd params sup rnd scid rawcfg peer_idle wire override _ _ _ _ _ pto3 probes =>
     let ps := map (fun p => (fst p, hx (snd p))) params in
     let w := hx wire in
     let cfg0 := populate (config_of_list rawcfg) in
@@ -76,14 +78,15 @@ Definition model_obs (c : case) : obs :=
                       (if c_dg cfg then wireMaxDatagramSize else (-1)) (c_idle cfg) 0))
       (enf_list cfg)
       (client_idle (c_idle cfg) peer_idle)
+      (idle_deadline (c_idle cfg) peer_idle pto3)
       (run_codes e (init e) (map fst probes))
       (if sd then true else eq_bytes (limits_list a) (limits_list (plain_advertised cfg)))
   end.
 
 Definition check_case (c : case) : bool :=
   match c with
-  | AdvCase _ _ _ _ _ _ _ _ _ adv rec enf idle probes =>
+  | AdvCase _ _ _ _ _ _ _ _ _ adv rec enf idle deadline _ probes =>
     let o := model_obs c in
     o_wire_ok o && o_override_ok o && eq_bytes (o_adv o) adv && eq_bytes (o_rec o) rec &&
-    eq_bytes (o_enf o) enf && (o_idle o =? idle) && eq_bytes (o_codes o) (map snd probes) && o_plain_ok o
+    eq_bytes (o_enf o) enf && (o_idle o =? idle) && (o_deadline o =? deadline) && eq_bytes (o_codes o) (map snd probes) && o_plain_ok o
   end.
